@@ -21,13 +21,18 @@ pub enum Alt {
     Bit(usize, u8),
     Alg(PDev),
     Trailing(usize),
+    /// two scalar fields changed together: slot i += 1, slot j += sign * c^(+-1) with c the c-th
+    /// challenge the verifier derives for the unmodified proof (forks included)
+    Weighted { i: usize, j: usize, c: usize, inv: bool, neg: bool },
 }
+const SC_SLOTS: [crate::devspace::Slot; 5] = [crate::devspace::Slot::Sc(0), crate::devspace::Slot::Sc(1), crate::devspace::Slot::Sc(2), crate::devspace::Slot::A, crate::devspace::Slot::B];
 impl Alt {
     pub fn name(&self) -> String {
         match self {
             Alt::Bit(p, b) => format!("byte {} bit {}", p, b),
             Alt::Alg(d) => d.name(),
             Alt::Trailing(n) => format!("{} trailing bytes", n),
+            Alt::Weighted { i, j, c, inv, neg } => format!("{} += 1 ; {} {}= (recorded challenge #{}){}", SC_SLOTS[*i].name(), SC_SLOTS[*j].name(), if *neg { "-" } else { "+" }, c, if *inv { "^-1" } else { "" }),
         }
     }
 }
@@ -91,6 +96,20 @@ pub fn alterations<G: Cv>(b: &Base<G>) -> Vec<Alt> {
     for n in [1usize, 8, 33] {
         out.push(Alt::Trailing(n));
     }
+    let nch = 8 + b.k + b.prog.closures.iter().flatten().filter(|o| **o == crate::program::Op::Z).count();
+    for i in 0..5 {
+        for j in 0..5 {
+            if i != j {
+                for c in 0..nch {
+                    for inv in [false, true] {
+                        for neg in [false, true] {
+                            out.push(Alt::Weighted { i, j, c, inv, neg });
+                        }
+                    }
+                }
+            }
+        }
+    }
     out
 }
 
@@ -116,6 +135,21 @@ pub fn run_case<G: Cv>(env: &Env<G>, b: &Base<G>, a: &Alt, seed: u64) -> Out {
             x.extend(std::iter::repeat(0x5au8).take(*n));
             x
         }
+        Alt::Weighted { i, j, c, inv, neg } => {
+            let parts = Parts::<G>::parse(&b.bytes).unwrap();
+            let chs = crate::props::c03::recorded_challenges::<G>(env, &b.prog, &b.comms, &parts, seed);
+            let Some(cv) = chs.get(*c) else { return Out::Identical };
+            let mut w = if *inv { match ark_ff::Field::inverse(cv) { Some(x) => x, None => return Out::Identical } } else { *cv };
+            if *neg {
+                w = -w;
+            }
+            let mut p2 = parts.clone();
+            let one = <G::ScalarField as ark_ff::One>::one();
+            crate::devspace::set_sc(&mut p2, SC_SLOTS[*i], crate::devspace::get_sc(&parts, SC_SLOTS[*i]) + one);
+            let cur = crate::devspace::get_sc(&p2, SC_SLOTS[*j]);
+            crate::devspace::set_sc(&mut p2, SC_SLOTS[*j], cur + w);
+            p2.to_bytes()
+        }
     };
     let dec = match guarded(|| R1CSProof::<G>::from_bytes(&bytes)) {
         Err(m) => return Out::Panic(format!("from_bytes: {}", m)),
@@ -137,7 +171,7 @@ pub fn main(o: &Opts) -> i32 {
     let mut rep = Report::new("C04", o.tier.name(), o.seed, "exploration");
     let replay: Option<Value> = o.replay.as_ref().map(|p| serde_json::from_str(&std::fs::read_to_string(p).unwrap()).unwrap());
     rep.bounds = json!({"bases": base_programs(o.tier).iter().map(|p| p.name()).collect::<Vec<_>>(),
-        "alterations": ["every single-bit flip of the encoding", "every single-field algebraic deviation (identity, negation, +B, +B_blinding, +T8/T8 on the cofactor-8 curve; scalar 0, negation, +delta)", "every ordered same-type copy and every unordered same-type swap", "round edits (drop first/last, duplicate, swap rounds, swap L/R, append)", "trailing bytes"]});
+        "alterations": ["every single-bit flip of the encoding", "every single-field algebraic deviation (identity, negation, +B, +B_blinding, +T8/T8 on the cofactor-8 curve; scalar 0, negation, +delta)", "every ordered same-type copy and every unordered same-type swap", "round edits (drop first/last, duplicate, swap rounds, swap L/R, append)", "trailing bytes", "every ordered pair of scalar fields changed together with every recorded verifier challenge (forks included) as the weight, both signs, also inverted"]});
     rep.curves = CURVES.iter().map(|s| s.to_string()).collect();
     rep.rule = "for every accepted base proof, every alteration of the alphabet: rejected by from_bytes, or rejected by verify, or decodes to the identical proof object (re-encoding equals the original bytes); non-trivial = alterations that decode to a different object (they reach the verifier)".into();
     let start = rep.start;
@@ -166,7 +200,7 @@ pub fn main(o: &Opts) -> i32 {
             tasks.iter().zip(res).map(|((bi, a), r)| (*bi, a.name(), r, bases[*bi].prog.name())).collect()
         });
         for (i, (_bi, aname, r, bname)) in results.into_iter().enumerate() {
-            let kind = if aname.starts_with("byte ") { "bitflip" } else if aname.contains("trailing") { "trailing" } else { "algebraic" };
+            let kind = if aname.starts_with("byte ") { "bitflip" } else if aname.contains("trailing") { "trailing" } else if aname.contains("recorded challenge") { "challenge-weighted" } else { "algebraic" };
             let case = json!({"curve": curve, "base": bname, "alteration": aname});
             if i % 20011 == 0 {
                 rep.sample(case.clone());
